@@ -13,6 +13,7 @@
 //	raw     every 1- and 2-byte string as unwrapped code
 //	frames  every frame shape: chains of <= 3 frames over the 4 call kinds, one optional sibling call, 10 actions
 //	codeid  code identity: 2-3 contracts that all jump in one transaction, layouts enumerated against each other
+//	createret  CREATE/CREATE2 x init-code shapes (deposit refused for gas / size, revert, fault) x what the caller then sees
 //	wrap    state-changing tokens inside STATICCALL / reverting / failing / nested-reverting frames and at
 //	        the bottom of a self-recursion to the depth limit; stack-limit programs; loops
 package main
@@ -77,17 +78,13 @@ var (
 // programs (minimisation) and return a replacement program to store as the replay case.
 func runProgram(c *wctx, p *prog, classOf func(iset int, f finding) (string, *prog)) (nontrivialCompared bool) {
 	res := evalBoth(c, p)
-	overCap := false
-	if len(res[0].findings)+len(res[1].findings) > 0 {
-		overCap = atomic.AddInt64(&nViolCase, 1) > maxViolCases
-	}
 	for iset := 0; iset < 2; iset++ {
 		if res[iset].compared && res[iset].nontrivial {
 			nontrivialCompared = true
 		}
 		for _, f := range res[iset].findings {
-			if overCap {
-				// enough evidence; keep counting but do not minimise / locate / confirm further cases
+			if beyondCap(p, iset, f.kind) {
+				// enough evidence for this input family and oracle; keep counting but do not minimise / locate / confirm further cases
 				r.Add("violating_runs_beyond_cap:"+f.kind, 1)
 				continue
 			}
@@ -121,6 +118,32 @@ func wantSample(fam string) bool {
 	}
 	sampleFam[fam] = true
 	return true
+}
+
+// beyondCap bounds the number of violating cases that are minimised / located / confirmed: maxViolPerKey per
+// (input family key, oracle kind, instruction set), so that a flood of one kind cannot hide another family's
+// signature, and maxViolCases in total.
+var (
+	capMu    sync.Mutex
+	capCount = map[string]int{}
+)
+
+const maxViolPerKey = 40
+
+func beyondCap(p *prog, iset int, kind string) bool {
+	key := p.capKey
+	if key == "" {
+		key = p.family
+	}
+	key = fmt.Sprintf("%s|%s|%d", key, kind, iset)
+	capMu.Lock()
+	capCount[key]++
+	n := capCount[key]
+	capMu.Unlock()
+	if n > maxViolPerKey {
+		return true
+	}
+	return atomic.AddInt64(&nViolCase, 1) > maxViolCases
 }
 
 // classFor names the input class of a finding: the instruction the divergence locator blames
@@ -725,6 +748,7 @@ func main() {
 	phase("wrappers", runWrappers)
 	phase("frames", runFrames)
 	phase("codeid", runCodeID)
+	phase("createret", runCreateRet)
 	phase("singles", runSingles)
 	phase("sweep", runSweep)
 	phase("create", runCreateTop)
@@ -811,12 +835,14 @@ func main() {
 	r.Set("rule", "E3: every token sequence of length <= seq_max_len over the listed alphabet (longest length: see seq_len3_alphabet / cap_reached), wrapped by a fixed prelude/postlude; "+
 		"every byte as single-opcode body; DUP/SWAP over 20 distinct words; operand sweeps per opcode (36B input, ample gas); every 1- and 2-byte raw code; raw strings as init code of a top-level creation; the wrapper programs; every frame shape (chains of <= 3 frames over the 4 call kinds x one optional sibling call x 10 state-changing actions, see frame_shapes); "+
 		"the code-identity scenarios (2-3 contracts that all JUMP in one transaction, layouts enumerated so that at each jump-target offset the other program has a JUMPDEST / another opcode / PUSH data 0x5b / other PUSH data / "+
-		"its end nearby / its end far before / a truncated PUSH, jump before or after the call, 4 call kinds, same code at two addresses, self-call; own absolute model plus differential, see codeid_scenarios). "+
+		"its end nearby / its end far before / a truncated PUSH, jump before or after the call, 4 call kinds, same code at two addresses, self-call; own absolute model plus differential, see codeid_scenarios); "+
+		"the create-return scenarios (CREATE / CREATE2 x 9 init-code shapes {small, empty, stop, 1000-byte deposit with the frame's gas swept across every schedule's code-store threshold, 30000 and 40000 bytes, revert with / without data, fault} "+
+		"x {RETURNDATASIZE, RETURNDATACOPY of 1 byte, RETURNDATACOPY of everything} x {in a called frame, in the top frame}; absolute oracle: the return-data buffer is empty after every creation that did not revert, see createret_kvm_outcomes). "+
 		"Token sequences of length <= 2, single bodies and (thorough) length 3 and raw codes run under call data {empty,32B,36B} x gas {tiny,ample}; quick: length 3 under (36B, ample), raw codes under {(36B,ample),(empty,ample),(36B,tiny)}; thorough length 4 under (36B, ample). Everything under both instruction sets. "+
 		"evaluations = executions on KVM plus on the reference. A program is distinct by construction (unique code bytes) and counted non-trivial when, for at least one (input, gas, instruction set), "+
 		"KVM dispatched >= 1 instruction past the prelude AND no frame on either side ran out of gas or fetched an excluded opcode, so the differential oracle was applied.")
 	r.Assume("go-ethereum v1.9.15 core/vm + core/state under Petersburg rules with EIP-1884 (v1, v2) and EIP-1344 (v2) enabled is the reference semantics (binding table in the evidence)",
-		"gas costs, GAS, bytes 0x44 and 0x45 (KVM: GASLIMIT and undefined; reference: DIFFICULTY and GASLIMIT), refund counter and MaxCodeSize (39231 vs 24576) legitimately differ and are never compared; a run is value-compared only if no frame on either side failed with an out-of-gas class error",
+		"gas costs, GAS, bytes 0x44 and 0x45 (KVM: GASLIMIT and undefined; reference: DIFFICULTY and GASLIMIT), refund counter and MaxCodeSize (39231 vs 24576: only a creation returning between the two limits is excluded) legitimately differ and are never compared; a run is value-compared only if no frame on either side failed with an out-of-gas class error",
 		"block context (coinbase, time, number, gas limit, gas price, origin, block hashes, chain id) is pinned equal on both sides",
 		"precompile calls (addresses 1..9) are value-compared only under ample gas (their gas failure is invisible to the reference's tracer)",
 		"failure kinds are compared as success / revert / failure (the weakest reading of 'error class'); finer mismatches are only counted",
